@@ -1,0 +1,26 @@
+//! Instrumentation used by external verification harnesses.
+//!
+//! Everything in here is behind the `verif_hooks` feature and purely
+//! observational: it records what the engine did, it never changes it.
+#![allow(missing_docs)]
+use std::cell::RefCell;
+
+pub use crate::loader::safe_join;
+
+thread_local! {
+    static BALANCE_REPORTS: RefCell<Vec<String>> = const { RefCell::new(Vec::new()) };
+}
+
+pub(crate) fn report(msg: String) {
+    BALANCE_REPORTS.with(|r| {
+        let mut r = r.borrow_mut();
+        if r.len() < 64 {
+            r.push(msg);
+        }
+    });
+}
+
+/// Returns (and clears) the balance reports recorded on this thread.
+pub fn take_balance_reports() -> Vec<String> {
+    BALANCE_REPORTS.with(|r| std::mem::take(&mut *r.borrow_mut()))
+}
